@@ -3,6 +3,8 @@
  *
  *   coll_op_create   a commutative user-defined operator working on the 32-bit words of registered layouts
  *   coll_layout      tell that operator where the 32-bit words of a (derived) datatype are
+ *   (coll_op_create also installs a second fatal-signal reporter: {"k":"crash2","sig","r","ci"} = the rank that was RUNNING when
+ *   the signal arrived and the index of the coll operation that this rank was executing, -1 when it was in another operation)
  *   coll             ONE collective call (blocking or MPI_I* + Wait/Test) on generated buffers; reports CRC-32 of the buffers
  *
  * The driver only executes and reports: the buffers are filled with a pattern that vf/coll.py recomputes (fill()), the
@@ -12,6 +14,8 @@
 #include <simgrid/Exception.hpp>
 #include <simgrid/s4u/Actor.hpp>
 #include <simgrid/s4u/Engine.hpp>
+#include <csignal>
+#include <unistd.h>
 #include "smpi/include/smpi_coll.hpp" // internal: get_smpi_coll_help() = the text printed by smpirun --help-coll
 
 using namespace mpii;
@@ -155,6 +159,69 @@ void uop(void* in, void* inout, int* len, MPI_Datatype* dt)
     }
 }
 
+/* ---- accurate crash location.  mpi_interp's own crash line names the operation that was STARTED last, by any rank; a rank that
+ * dies after having been blocked inside a collective is not the one that started the last operation.  Here: the rank of the actor
+ * that is running when the fatal signal arrives, and the `coll` operation that this rank is executing (-1: another operation).
+ * Written with write(2) before chaining to the handler of mpi_interp. ---- */
+constexpr int MAXR = 4096;
+int cur_coll_of_rank[MAXR];  // index in prog of the coll operation that the rank is executing, or -1
+int rank_of_pid[MAXR];       // actor pid -> world rank
+struct sigaction old_handlers[65];
+bool crash2_installed = false;
+
+void on_fatal_signal2(int sig)
+{
+  int rank = -1;
+  int ci   = -1;
+  if (simgrid::s4u::Actor::self() != nullptr) {
+    long pid = simgrid::s4u::this_actor::get_pid();
+    if (pid >= 0 && pid < MAXR) {
+      rank = rank_of_pid[pid];
+      if (rank >= 0 && rank < MAXR)
+        ci = cur_coll_of_rank[rank];
+    }
+  }
+  char line[160];
+  int n = snprintf(line, sizeof line, "{\"k\":\"crash2\",\"sig\":%d,\"r\":%d,\"ci\":%d}\n", sig, rank, ci);
+  if (n > 0 && write(1, line, static_cast<size_t>(n)) < 0) { /* nothing to do */
+  }
+  sigaction(sig, &old_handlers[sig], nullptr);
+  raise(sig);
+}
+
+void install_crash2(Rank& R)
+{
+  if (not crash2_installed) {
+    crash2_installed = true;
+    for (int i = 0; i < MAXR; i++)
+      cur_coll_of_rank[i] = rank_of_pid[i] = -1;
+    for (int sig : {SIGFPE, SIGABRT, SIGBUS, SIGILL, SIGSEGV}) {
+      struct sigaction sa;
+      memset(&sa, 0, sizeof sa);
+      sa.sa_handler = on_fatal_signal2;
+      sa.sa_flags   = SA_ONSTACK | SA_NODEFER;
+      sigaction(sig, &sa, &old_handlers[sig]);
+    }
+  }
+  long pid = simgrid::s4u::this_actor::get_pid();
+  if (pid >= 0 && pid < MAXR && R.rank >= 0 && R.rank < MAXR)
+    rank_of_pid[pid] = R.rank;
+}
+
+struct InColl { // marks the rank as executing the coll operation number idx
+  int rank;
+  InColl(int r, int idx) : rank(r)
+  {
+    if (rank >= 0 && rank < MAXR)
+      cur_coll_of_rank[rank] = idx;
+  }
+  ~InColl()
+  {
+    if (rank >= 0 && rank < MAXR)
+      cur_coll_of_rank[rank] = -1;
+  }
+};
+
 std::vector<MPI_Datatype> types_of(Rank& R, const json& a, const char* key)
 {
   std::vector<MPI_Datatype> v;
@@ -175,6 +242,7 @@ MPI_OPERATION(coll_help)
 /* {"op":"coll_op_create","out":name,"commute":true?} */
 MPI_OPERATION(coll_op_create)
 {
+  install_crash2(R);
   layouts[MPI_INT]      = Layout{4, {0}};
   layouts[MPI_UNSIGNED] = Layout{4, {0}};
   MPI_Op op             = MPI_OP_NULL;
@@ -218,6 +286,7 @@ MPI_OPERATION(coll)
     return;
   }
   MPI_Comm comm = cit->second;
+  InColl marker(R.rank, o.value("i", -1));
   int me = -1, p = 0;
   MPI_Comm_rank(comm, &me);
   MPI_Comm_size(comm, &p);
